@@ -84,7 +84,50 @@ def fitted_case(draw, classes, max_features=3, dev_modes=None, quant_pools=None,
     if cls == "ChainedDiscretizer":
         cfg["levels"] = levels
     case["config"] = cfg
+    # boundary situations by construction: in a quarter of the cases one modality of one feature is given a
+    # training count of exactly threshold * n rows (threshold in min_freq, min_freq/2, min_freq_mod)
+    if draw(st.integers(0, 3)) == 0:
+        from fractions import Fraction
+
+        n = sum(case["target"]["blocks"])
+        thresholds = [Fraction(repr(cfg["min_freq"])), Fraction(repr(cfg["min_freq"])) / 2]
+        if cfg.get("min_freq_mod") is not None:
+            thresholds.append(Fraction(repr(cfg["min_freq_mod"])))
+        thr = thresholds[draw(st.integers(0, len(thresholds) - 1))]
+        total = thr * n
+        candidates = [f for f in case["features"] if f["kind"] != "continuous" and len(f["values"]) >= 2]
+        if total.denominator == 1 and 1 <= total < n and candidates:
+            f = candidates[draw(st.integers(0, len(candidates) - 1))]
+            j = draw(st.integers(0, len(f["values"]) - 1))
+            _pin_total(f["train"], j, int(total))
+            f["pinned"] = [j, int(total)]
     return case
+
+
+def _pin_total(table, j, total):
+    """Moves rows between modality j and the other modalities (within each target level, so block sizes are
+    kept) until modality j holds exactly `total` training rows, if that is possible."""
+    n_mod = len(table[0]) - 1
+    current = sum(row[j] for row in table)
+    diff = total - current
+    for row in table:
+        if diff == 0:
+            break
+        others = sorted((k for k in range(n_mod) if k != j), key=lambda k: -row[k])
+        if diff > 0:
+            for k in others:
+                take = min(diff, row[k])
+                row[k] -= take
+                row[j] += take
+                diff -= take
+                if diff == 0:
+                    break
+        else:
+            give = min(-diff, row[j])
+            if others:
+                row[j] -= give
+                row[others[0]] += give
+                diff += give
 
 
 def object_dropna(case) -> bool:
